@@ -75,6 +75,33 @@ func AllLints(f *Func) []LintHit {
 		out = append(out, LintHit{"mapstore", fmt.Sprintf("%s#store(%s[%s])", f.Name, u.Map, Src(f.Pkg.Fset, u.Store.Lhs[0].(*ast.IndexExpr).Index)), u.Store.Pos(),
 			fmt.Sprintf("`%s` replaces the entry unconditionally, while another store to %s in this function first looks the key up and only creates the entry when absent: an entry filled there is overwritten here", Src(f.Pkg.Fset, u.Store), u.Map)})
 	}
+	for _, d := range DupBranches(f) {
+		out = append(out, LintHit{"dupbranch", fmt.Sprintf("%s#case(%s)", f.Name, Src(f.Pkg.Fset, d.Second.(*ast.CaseClause).List[0])), d.Second.Pos(),
+			fmt.Sprintf("the arms `case %s` and `case %s` of one switch have the same body (%s): one was pasted and not adapted", Src(f.Pkg.Fset, d.First.(*ast.CaseClause).List[0]), Src(f.Pkg.Fset, d.Second.(*ast.CaseClause).List[0]), d.Body)})
+	}
+	for _, ss := range SelfSearches(f) {
+		out = append(out, LintHit{"selfsearch", fmt.Sprintf("%s#selfsearch(%s)", f.Name, Src(f.Pkg.Fset, ss.Outer.X)), ss.Inner.Pos(),
+			fmt.Sprintf("the elements of %s are searched for in %s itself: every element finds itself, the search cannot fail", Src(f.Pkg.Fset, ss.Outer.X), Src(f.Pkg.Fset, ss.Inner.X))})
+	}
+	for _, g := range TwinGuards(f) {
+		out = append(out, LintHit{"twinguard", fmt.Sprintf("%s#guard(%s/%s)", f.Name, g.Tested, g.By), g.If.Pos(),
+			fmt.Sprintf("this guard repeats the preceding statement's test of %s, but its body works on %s and never mentions %s", g.Tested, g.By, g.Tested)})
+	}
+	// JSON schemas describe the values of a map only (its keys are strings): the schema builders are exempt
+	if _, hw := HalfMapWalks(f); len(hw) > 0 && !strings.HasPrefix(f.Name, "http/codegen/openapi") {
+		for _, h := range hw {
+			out = append(out, LintHit{"mapwalk", fmt.Sprintf("%s#map-arm(%s only)", f.Name, h.Visited), h.Clause.Pos(),
+				fmt.Sprintf("the map arm of this recursive walker recurses into %s only: the other half of every map (its %s) is never visited", h.Visited, map[string]string{"KeyType": "values", "ElemType": "keys"}[h.Visited])})
+		}
+	}
+	for _, l := range LazyInitExtras(f) {
+		out = append(out, LintHit{"lazyinit", fmt.Sprintf("%s#lazyinit(%s)", f.Name, Src(f.Pkg.Fset, l.Call)), l.Call.Pos(),
+			fmt.Sprintf("`%s` sits inside the block that creates %s when it is nil: it is skipped whenever the value already exists", Src(f.Pkg.Fset, l.Call), Src(f.Pkg.Fset, l.If.Cond.(*ast.BinaryExpr).X))})
+	}
+	for _, sc := range ShallowCopies(f) {
+		out = append(out, LintHit{"shallow", fmt.Sprintf("%s#shallow(%s)", f.Name, sc.Field), sc.Pos,
+			fmt.Sprintf("the copy takes field %s from the source as is although %s has a duplicator of its own: copy and original share the %s values, and a change made through one is seen through the other", sc.Field, sc.Elem, sc.Elem)})
+	}
 	for _, bb := range BareBreaks(f) {
 		cond := Src(f.Pkg.Fset, bb.If.Cond)
 		if bb.If.Init != nil {
@@ -924,5 +951,436 @@ func UnguardedMapStores(f *Func) []UnguardedMapStore {
 		}
 	}
 	sort.Slice(out, func(i, j int) bool { return out[i].Store.Pos() < out[j].Store.Pos() })
+	return out
+}
+
+// DupBranch: two arms of one switch (or of an if/else-if chain) have identical,
+// non-trivial bodies while their conditions differ: one of them was pasted and
+// not adapted (`case "query": hsch = append(hsch, s)` next to `case "header":
+// hsch = append(hsch, s)`).
+type DupBranch struct {
+	First, Second ast.Node
+	Body          string
+}
+
+func DupBranches(f *Func) []DupBranch {
+	var out []DupBranch
+	text := func(list []ast.Stmt) string {
+		var b strings.Builder
+		for _, s := range list {
+			b.WriteString(Src(f.Pkg.Fset, s))
+			b.WriteString(";")
+		}
+		return b.String()
+	}
+	nontrivial := func(list []ast.Stmt) bool {
+		if len(list) == 0 {
+			return false
+		}
+		for _, s := range list {
+			switch x := s.(type) {
+			case *ast.ReturnStmt:
+				if len(x.Results) == 0 {
+					continue
+				}
+				allConst := true
+				for _, r := range x.Results {
+					if tv, ok := f.Pkg.TypesInfo.Types[r]; !ok || (tv.Value == nil && !tv.IsNil()) {
+						allConst = false
+					}
+				}
+				if allConst {
+					continue
+				}
+				return true
+			case *ast.BranchStmt:
+				continue
+			default:
+				return true
+			}
+		}
+		return false
+	}
+	ast.Inspect(f.Decl.Body, func(nd ast.Node) bool {
+		var clauses []*ast.CaseClause
+		switch x := nd.(type) {
+		case *ast.SwitchStmt:
+			if x.Tag == nil {
+				return true // arms of a tagless switch are ordered conditions; equal bodies are a way to write "or"
+			}
+			for _, s := range x.Body.List {
+				if cc, ok := s.(*ast.CaseClause); ok && cc.List != nil {
+					clauses = append(clauses, cc)
+				}
+			}
+		case *ast.TypeSwitchStmt:
+			return true // identical bodies under different types are different code
+		default:
+			return true
+		}
+		for i := 0; i < len(clauses); i++ {
+			for j := i + 1; j < len(clauses); j++ {
+				if !nontrivial(clauses[i].Body) {
+					continue
+				}
+				if a, b := text(clauses[i].Body), text(clauses[j].Body); a == b && len(a) > 12 {
+					out = append(out, DupBranch{clauses[i], clauses[j], a})
+				}
+			}
+		}
+		return true
+	})
+	return out
+}
+
+// SelfSearch: a nested loop searches a collection for an element of the very
+// same collection (`for _, a := range X { for _, b := range X { if a == b …`):
+// every element finds itself, so a "not found" branch is dead and the check the
+// loops were written for cannot fail.
+type SelfSearch struct {
+	Outer, Inner *ast.RangeStmt
+}
+
+func SelfSearches(f *Func) []SelfSearch {
+	info := f.Pkg.TypesInfo
+	var out []SelfSearch
+	ast.Inspect(f.Decl.Body, func(nd ast.Node) bool {
+		outer, ok := nd.(*ast.RangeStmt)
+		if !ok || outer.Value == nil {
+			return true
+		}
+		ov := info.ObjectOf(identOf(outer.Value))
+		ast.Inspect(outer.Body, func(m ast.Node) bool {
+			inner, ok := m.(*ast.RangeStmt)
+			if !ok || inner.Value == nil || !SameExpr(info, inner.X, outer.X) {
+				return true
+			}
+			iv := info.ObjectOf(identOf(inner.Value))
+			if ov == nil || iv == nil {
+				return true
+			}
+			if k, ok := inner.Key.(*ast.Ident); ok && k.Name != "_" {
+				if k2, ok := outer.Key.(*ast.Ident); ok && k2.Name != "_" {
+					return true // both positions are available: the body can (and does, in the duplicate checks) exclude the element itself
+				}
+			}
+			// the inner body compares the two elements for equality and sets a flag / breaks
+			found := false
+			ast.Inspect(inner.Body, func(k ast.Node) bool {
+				cmp, ok := k.(*ast.BinaryExpr)
+				if !ok || cmp.Op != token.EQL {
+					return true
+				}
+				l, r := RootIdent(cmp.X), RootIdent(cmp.Y)
+				if l == nil || r == nil {
+					return true
+				}
+				lo, ro := info.Uses[l], info.Uses[r]
+				if (lo == ov && ro == iv) || (lo == iv && ro == ov) {
+					found = true
+				}
+				return true
+			})
+			if found {
+				out = append(out, SelfSearch{outer, inner})
+			}
+			return true
+		})
+		return true
+	})
+	return out
+}
+
+func identOf(e ast.Expr) *ast.Ident {
+	id, _ := ast.Unparen(e).(*ast.Ident)
+	if id == nil {
+		return &ast.Ident{Name: "_"}
+	}
+	return id
+}
+
+// TwinGuard: two consecutive if statements with the same condition
+// `len(A) > 0` (or A != nil); the first body uses A, the second never mentions A
+// but uses B, another variable of A's type: the second guard was pasted from the
+// first and still tests the first variable.
+type TwinGuard struct {
+	If         *ast.IfStmt
+	Tested, By string
+}
+
+func TwinGuards(f *Func) []TwinGuard {
+	info := f.Pkg.TypesInfo
+	var out []TwinGuard
+	mentions := func(n ast.Node, o types.Object) bool {
+		found := false
+		ast.Inspect(n, func(m ast.Node) bool {
+			if id, ok := m.(*ast.Ident); ok && info.Uses[id] == o {
+				found = true
+			}
+			return !found
+		})
+		return found
+	}
+	guardVar := func(is *ast.IfStmt) types.Object {
+		cmp, ok := ast.Unparen(is.Cond).(*ast.BinaryExpr)
+		if !ok || (cmp.Op != token.GTR && cmp.Op != token.NEQ) {
+			return nil
+		}
+		e := cmp.X
+		if c2, ok := e.(*ast.CallExpr); ok && len(c2.Args) == 1 {
+			if id, ok := c2.Fun.(*ast.Ident); ok && id.Name == "len" {
+				e = c2.Args[0]
+			}
+		}
+		if id, ok := ast.Unparen(e).(*ast.Ident); ok {
+			return info.Uses[id]
+		}
+		return nil
+	}
+	ast.Inspect(f.Decl.Body, func(nd ast.Node) bool {
+		blk, ok := nd.(*ast.BlockStmt)
+		if !ok {
+			return true
+		}
+		for i := 1; i < len(blk.List); i++ {
+			a, ok1 := blk.List[i-1].(*ast.IfStmt)
+			b, ok2 := blk.List[i].(*ast.IfStmt)
+			if !ok1 || !ok2 || a.Init != nil || b.Init != nil || a.Else != nil || b.Else != nil {
+				continue
+			}
+			if Src(f.Pkg.Fset, a.Cond) != Src(f.Pkg.Fset, b.Cond) {
+				continue
+			}
+			v := guardVar(b)
+			if v == nil || !mentions(a.Body, v) || mentions(b.Body, v) {
+				continue
+			}
+			// a same-typed other variable used by the second body
+			var other types.Object
+			ast.Inspect(b.Body, func(m ast.Node) bool {
+				if id, ok := m.(*ast.Ident); ok {
+					if o, ok := info.Uses[id].(*types.Var); ok && o != v && !o.IsField() && types.Identical(o.Type(), v.Type()) {
+						other = o
+					}
+				}
+				return other == nil
+			})
+			if other != nil {
+				out = append(out, TwinGuard{b, v.Name(), other.Name()})
+			}
+		}
+		return true
+	})
+	return out
+}
+
+// HalfMapWalk: a self-recursive walker over data types has an arm for maps
+// (case *expr.Map) in which it recurses into the element type but not into the
+// key type, or the reverse: half of every map is never visited.
+type HalfMapWalk struct {
+	Clause  *ast.CaseClause
+	Visited string
+}
+
+// HalfMapWalks returns the number of map arms of self-recursive walkers in f and
+// the arms that recurse into only one of KeyType/ElemType.
+func HalfMapWalks(f *Func) (int, []HalfMapWalk) {
+	info := f.Pkg.TypesInfo
+	n := 0
+	var out []HalfMapWalk
+	ast.Inspect(f.Decl.Body, func(nd ast.Node) bool {
+		ts, ok := nd.(*ast.TypeSwitchStmt)
+		if !ok {
+			return true
+		}
+		for _, st := range ts.Body.List {
+			cc := st.(*ast.CaseClause)
+			isMap := false
+			for _, e := range cc.List {
+				if t := info.TypeOf(e); t != nil && strings.HasSuffix(t.String(), "/expr.Map") {
+					isMap = true
+				}
+			}
+			if !isMap {
+				continue
+			}
+			visited := map[string]int{}
+			for _, s := range cc.Body {
+				ast.Inspect(s, func(m ast.Node) bool {
+					call, ok := m.(*ast.CallExpr)
+					if !ok || Callee(info, call) != f.Obj {
+						return true
+					}
+					for _, a := range call.Args {
+						ast.Inspect(a, func(k ast.Node) bool {
+							if se, ok := k.(*ast.SelectorExpr); ok && (se.Sel.Name == "KeyType" || se.Sel.Name == "ElemType") {
+								visited[se.Sel.Name]++
+							}
+							return true
+						})
+					}
+					return true
+				})
+			}
+			if len(visited) == 0 {
+				continue
+			}
+			n++
+			if len(visited) == 1 {
+				for k := range visited {
+					out = append(out, HalfMapWalk{cc, k})
+				}
+			}
+		}
+		return true
+	})
+	return n, out
+}
+
+// LazyInitExtra: `if X == nil { X = &T{} ; X.M(…) }` - the block that creates a
+// missing value also applies an operation to it. The operation then only happens
+// when the value was missing; when it already existed it is skipped. In merge
+// code (take over the parent's required fields, validations …) that silently
+// drops the inherited data exactly when the target has data of its own.
+type LazyInitExtra struct {
+	If   *ast.IfStmt
+	Call *ast.CallExpr
+}
+
+func LazyInitExtras(f *Func) []LazyInitExtra {
+	info := f.Pkg.TypesInfo
+	var out []LazyInitExtra
+	ast.Inspect(f.Decl.Body, func(nd ast.Node) bool {
+		is, ok := nd.(*ast.IfStmt)
+		if !ok || is.Else != nil || is.Init != nil || len(is.Body.List) < 2 {
+			return true
+		}
+		cmp, ok := ast.Unparen(is.Cond).(*ast.BinaryExpr)
+		if !ok || cmp.Op != token.EQL || !IsNilIdent(info, cmp.Y) {
+			return true
+		}
+		first, ok := is.Body.List[0].(*ast.AssignStmt)
+		if !ok || len(first.Lhs) != 1 || !SameExpr(info, first.Lhs[0], cmp.X) {
+			return true
+		}
+		// the right-hand side creates a fresh empty value
+		fresh := false
+		switch r := ast.Unparen(first.Rhs[0]).(type) {
+		case *ast.UnaryExpr:
+			if cl, ok := r.X.(*ast.CompositeLit); ok && len(cl.Elts) == 0 {
+				fresh = true
+			}
+		case *ast.CompositeLit:
+			fresh = len(r.Elts) == 0
+		}
+		if !fresh {
+			return true
+		}
+		for _, st := range is.Body.List[1:] {
+			es, ok := st.(*ast.ExprStmt)
+			if !ok {
+				continue
+			}
+			call, ok := es.X.(*ast.CallExpr)
+			if !ok {
+				continue
+			}
+			if se, ok := call.Fun.(*ast.SelectorExpr); ok && SameExpr(info, se.X, cmp.X) && len(call.Args) > 0 {
+				out = append(out, LazyInitExtra{is, call})
+			}
+		}
+		return true
+	})
+	return out
+}
+
+// ShallowCopy: a copy constructor (function named Dup*/copy*/clone*) hands a
+// field holding pointers to values of type T (a *T or a []*T) from the source
+// to the copy as is - by plain assignment or with the builtin copy - although
+// the package has a dedicated duplicator for T (func DupT or method T.Dup): the
+// "copy" shares those values with the original, and whoever customises the copy
+// (the transports each set the credential location on their copy of a scheme)
+// changes the original and every other copy.
+type ShallowCopy struct {
+	Pos   token.Pos
+	Field string
+	Elem  string
+}
+
+func ShallowCopies(f *Func) []ShallowCopy {
+	if !copyName.MatchString(shortFuncName(f)) {
+		return nil
+	}
+	info := f.Pkg.TypesInfo
+	hasDup := func(t types.Type) (string, bool) {
+		for i := 0; i < 2; i++ {
+			switch x := t.(type) {
+			case *types.Slice:
+				t = x.Elem()
+			}
+		}
+		p, ok := t.(*types.Pointer)
+		if !ok {
+			return "", false
+		}
+		n, ok := p.Elem().(*types.Named)
+		if !ok || n.Obj().Pkg() == nil || !strings.HasPrefix(n.Obj().Pkg().Path(), Mod) {
+			return "", false
+		}
+		if _, isStruct := n.Underlying().(*types.Struct); !isStruct {
+			return "", false
+		}
+		name := n.Obj().Name()
+		short := strings.TrimSuffix(name, "Expr")
+		scope := n.Obj().Pkg().Scope()
+		for _, cand := range []string{"Dup" + name, "Dup" + short} {
+			if _, ok := scope.Lookup(cand).(*types.Func); ok {
+				return name, true
+			}
+		}
+		for i := 0; i < n.NumMethods(); i++ {
+			if n.Method(i).Name() == "Dup" {
+				return name, true
+			}
+		}
+		return "", false
+	}
+	srcField := func(e ast.Expr) (string, types.Type, bool) {
+		se, ok := ast.Unparen(e).(*ast.SelectorExpr)
+		if !ok {
+			return "", nil, false
+		}
+		v, ok := info.Uses[se.Sel].(*types.Var)
+		if !ok || !v.IsField() {
+			return "", nil, false
+		}
+		return se.Sel.Name, v.Type(), true
+	}
+	var out []ShallowCopy
+	ast.Inspect(f.Decl.Body, func(nd ast.Node) bool {
+		switch x := nd.(type) {
+		case *ast.KeyValueExpr:
+			key, ok := x.Key.(*ast.Ident)
+			if !ok {
+				return true
+			}
+			if name, t, ok := srcField(x.Value); ok && name == key.Name {
+				if elem, ok := hasDup(t); ok {
+					out = append(out, ShallowCopy{x.Pos(), name, elem})
+				}
+			}
+		case *ast.CallExpr:
+			if id, ok := x.Fun.(*ast.Ident); ok && id.Name == "copy" && len(x.Args) == 2 {
+				if _, isBuiltin := info.Uses[id].(*types.Builtin); isBuiltin {
+					if name, t, ok := srcField(x.Args[1]); ok {
+						if elem, ok := hasDup(t); ok {
+							out = append(out, ShallowCopy{x.Pos(), name, elem})
+						}
+					}
+				}
+			}
+		}
+		return true
+	})
 	return out
 }
